@@ -97,7 +97,7 @@ def lean_ty(t):
         if t[0] == 'Tup':
             return ' × '.join(par_ty(x) for x in t[1:])
     return {NAT: 'Nat', INT: 'Int', BOOL: 'Bool', BIT: 'Bool', CHR: 'Bool', STR: 'Bits', BITS: 'Bits', KIND: 'String', SLICE: 'Py.Slice',
-            CELL: 'Cell', BLD: 'Py.Bld', TREE: 'Py.Tree V', NONE: 'Unit'}[t]
+            CELL: 'Cell', BLD: 'Py.Bld', TREE: 'Py.Tree V', NONE: 'Unit', 'Bytes': 'Bytes', 'Text': 'Bytes', 'Addr': 'Addr'}[t]
 
 
 def par_ty(t):
@@ -148,6 +148,8 @@ METHODS = {
           'store_ref': ([CELL], NONE, True, '({r}).storeRef? {0}')},
 }
 SLICE_ATTRS = {'type_': ('kind', INT)}
+# non-mutating methods that may raise: receiver type -> method -> (result type, lean template)
+PEEK_METHODS = {SLICE: {'preload_bit': (BIT, '({r}).preloadBit?'), 'preload_ref': (CELL, '({r}).preloadRef?')}}
 
 
 def calls_in(node):
@@ -399,7 +401,8 @@ class Tr:
                 return f'({r}).{a}', ty
             self.fail(e, 'attribute')
         if isinstance(e, ast.Tuple):
-            parts = [self.expr(x, env) for x in e.elts]
+            wants = list(want[1:]) if isinstance(want, tuple) and want[0] == 'Tup' and len(want) - 1 == len(e.elts) else [None] * len(e.elts)
+            parts = [self.expr(x, env, want=w) for x, w in zip(e.elts, wants)]
             return tup(p[0] for p in parts), TUP(*[p[1] for p in parts])
         if isinstance(e, ast.BinOp):
             return self.binop(e, env)
@@ -416,6 +419,11 @@ class Tr:
             return '[]', want or DICT(None, None)
         if isinstance(e, ast.List) and not e.elts:
             return '[]', want or LIST(None)
+        if isinstance(e, ast.List):                      # [a, b, …] of one element type
+            parts = [self.expr(x, env) for x in e.elts]
+            if any(p[1] != parts[0][1] for p in parts) or is_mutable(parts[0][1]):
+                self.fail(e, 'list literal of mixed or mutable elements')
+            return '[' + ', '.join(p[0] for p in parts) + ']', LIST(parts[0][1])
         if isinstance(e, ast.Dict):
             return self.tree_literal(e, env)
         if isinstance(e, ast.DictComp):
@@ -602,13 +610,15 @@ class Tr:
                 pos = [i for i, (p, _) in enumerate(c.params) if p in c.mutated]
                 return self.user_call(e, env, n, [t for _, t in c.params], c.ret, pos, c.fuel, c)
             if n in self.prog.externs:
-                targs, ret, tmpl = self.prog.externs[n]
+                targs, ret, tmpl = self.prog.externs[n][:3]
                 if len(e.args) != len(targs):
                     self.fail(e, 'arity')
                 args = []
                 for a, want in zip(e.args, targs):
                     x, t = self.expr(a, env)
                     args.append(self.coerce(x, t, want, a))
+                if len(self.prog.externs[n]) > 3:          # a raising extern: `let x ← term`
+                    return self.hoist(tmpl.format(*[par(a) for a in args]), 'x'), ret
                 return tmpl.format(*args), ret
             if n == 'len' and len(e.args) == 1:
                 a, t = self.expr(e.args[0], env)
@@ -649,6 +659,9 @@ class Tr:
                     return f'(Py.bitLength ({a}).natAbs)', NAT
             recv = f.value
             a, t = self.expr(recv, env)
+            if t in PEEK_METHODS and m in PEEK_METHODS[t] and not e.args:
+                ret, tmpl = PEEK_METHODS[t][m]
+                return self.hoist(tmpl.format(r=a), 't'), ret
             if t in METHODS and m in METHODS[t]:
                 targs, ret, mutates, tmpl = METHODS[t][m]
                 if len(e.args) != len(targs):
@@ -801,6 +814,8 @@ class Tr:
                 return self.fn_end(env)
             want = self.d.ret[1] if isinstance(self.d.ret, tuple) and self.d.ret[0] == 'Opt' else self.d.ret
             pre, (v, t) = self.with_pre(lambda: self.expr(s.value, env, want=want))
+            if isinstance(self.d.ret, tuple) and self.d.ret[0] == 'Opt' and t == self.d.ret:
+                return pre + [f'pure {tup([v] + self.ret_tuple(env))}']          # `return f(..)` of a callee that itself returns Optional
             if isinstance(self.d.ret, tuple) and self.d.ret[0] == 'Opt':
                 v = f'(some {v})'
             self.check_type(t, want, s)
